@@ -207,6 +207,7 @@ func (e *mapEnv) dFull() string {
 	if int(e.m.Count()) != len(e.shadow) {
 		e.violation("C02", fmt.Sprintf("count %d, dictionary has %d", e.m.Count(), len(e.shadow)))
 	}
+	e.health()
 	return d
 }
 
@@ -580,7 +581,7 @@ func mapMetaStream(cfg *Config) *hx.Stats {
 			}
 		}
 		for where := 0; where < 3 && len(st.Violations) <= 20 && st.HarnessErr == ""; where++ {
-			e := &mapEnv{w: w, st: st, cfg: cfg, rng: rng, T: []uint32{256, 276, 256}[where], prog: p}
+			e := &mapEnv{w: w, st: st, cfg: cfg, rng: rng, T: []uint32{256, 276, 260}[where], prog: p} // 260: 12 + 18*21 == maxThreshold (390), IsFull decided on the boundary
 			runMetaSweep(e, where)
 			st.Programs++
 			st.Ops += e.step
@@ -639,6 +640,11 @@ func (e *mapEnv) buildThreeLevels(wantMetas, minKids int, tiny bool) ([]metaInfo
 			depth, l1 := e.metaShape()
 			if depth > 3 {
 				break
+			}
+			for _, m := range l1 {
+				if m.size == e.T+e.T/2 {
+					e.st.Hit("fn:IsFull@boundary=false") // an index slab of exactly maxThreshold bytes that was not split
+				}
 			}
 			if depth == 3 && len(l1) >= wantMetas {
 				ok := true
